@@ -997,7 +997,8 @@ Section Steps.
     node_inv u n /\ (forall q, n <> NWrapper q) /\ (forall un, n = NUnion un -> un_level un = 0).
 
   Lemma child_loop_fresh en q attrs ns pos w vars n en2 :
-    child_loop c u en q attrs ns pos w vars = ROk (Some (n, en2)) -> forall un, n = NUnion un -> un_level un = 0.
+    child_loop c u en q attrs ns pos w vars = ROk (Some (n, en2)) ->
+    forall un, n = NUnion un -> un_level un = 0 /\ un_events un = [].
   Proof.
     induction vars as [|var rest IH]; cbn [child_loop]; [discriminate|].
     destruct (wrapper_mismatch w var); [exact IH|].
@@ -1007,7 +1008,7 @@ Section Steps.
     intros H un E. injection H as <- _. subst n0.
     unfold build_node in Hb. destruct (v_is_clazz_union var).
     - destruct (filter_candidates c u attrs (v_types var)); cbn [rbind] in Hb; [|discriminate].
-      injection Hb as <-. reflexivity.
+      injection Hb as <-. split; reflexivity.
     - destruct (xsi_type_of c attrs ns) as [xt|]; cbn [rbind] in Hb; [|discriminate].
       assert (Hben : forall p cl d nl df xn un0,
                  build_element_node c u p cl d nl attrs ns pos df xt xn <> ROk (Some (NUnion un0))).
@@ -1047,7 +1048,7 @@ Section Steps.
     - injection Hc as -> ->. destruct Hb as [[Hi Hnw'] | ->].
       + split; [exact Hi|]. split.
         * intros q0 E. subst n. exact Hnw'.
-        * exact (child_loop_fresh _ _ _ _ _ _ _ _ _ Hl).
+        * intros un0 E. exact (proj1 (child_loop_fresh _ _ _ _ _ _ _ _ _ Hl un0 E)).
       + split; [exact I|]. split; intros; discriminate.
     - destruct (fail_unknown_props cfg); [discriminate|]. injection Hc as <- <-.
       split; [exact I|]. split; intros; discriminate.
